@@ -52,6 +52,15 @@ def scenarios():
                 {'util.pn': 'accept', 'main.pn': 'accept'}))
     out.append(('the same file imported under two spellings', [('src/util.pn', UTIL), ('src/main.pn', user(['src/util.pn', 'util.pn'], '\treturn: pubf()\n'))],
                 {'src/util.pn': 'accept', 'src/main.pn': 'accept'}))
+    out.append(('a public opaque structure is visible to the importer', [('lib.pn', 'pub struct Handle;\n\npub fn open() -> i32\n{\n\treturn: 1\n}\n'),
+                ('main.pn', 'import "lib.pn";\n\nfn use(h: &Handle) -> i32\n{\n\treturn: open()\n}\n')], {'lib.pn': 'accept', 'main.pn': 'accept'}))
+    out.append(('a private opaque structure is not', [('lib.pn', 'struct Handle;\n\npub fn open() -> i32\n{\n\treturn: 1\n}\n'),
+                ('main.pn', 'import "lib.pn";\n\nfn use(h: &Handle) -> i32\n{\n\treturn: open()\n}\n')], {'lib.pn': 'accept', 'main.pn': 'reject'}))
+    out.append(('an import written after other declarations counts like any other', [('util.pn', UTIL),
+                ('main.pn', 'const K: i32 = 1;\n\nimport "util.pn";\n\nfn main() -> i32\n{\n\treturn: pubf() + K\n}\n')], {'util.pn': 'accept', 'main.pn': 'accept'}))
+    out.append(('imports interleaved with declarations', [('util.pn', UTIL), ('mid.pn', 'pub fn midf() -> i32\n{\n\treturn: 3\n}\n'),
+                ('main.pn', 'import "util.pn";\n\nconst K: i32 = 1;\n\nimport "mid.pn";\n\nfn main() -> i32\n{\n\treturn: pubf() + midf() + K\n}\n')],
+                {'util.pn': 'accept', 'mid.pn': 'accept', 'main.pn': 'accept'}))
     out.append(('mutual imports', [('a.pn', 'import "b.pn";\n\npub fn fa() -> i32\n{\n\treturn: 1\n}\n'), ('b.pn', 'import "a.pn";\n\npub fn fb() -> i32\n{\n\treturn: fa()\n}\n')],
                 {'a.pn': 'accept', 'b.pn': 'accept'}))
     return out
